@@ -122,6 +122,13 @@ TARGETS = [
     # record, the library error re-raised with the record number remembered BEFORE the read and the raw record as context
     ('cardutil/mciipm.py', 'IpmReader.__next__', {}, ('dict', 'str', 'pyval'),
      {'loads_ext': True, 'extern': {'loads_ext': ([('b', 'bytes')], ('dict', 'str', 'pyval'), True)}}),
+    # the convenience loops and the message writer: `self.write(record)` is the translated method on the current state,
+    # `super(IpmWriter, self).write(record)` the base class's, the message encoder an external function of the message
+    ('cardutil/mciipm.py', 'VbsWriter.write_many', {'iterable': ('list', 'bytes')}, None),
+    ('cardutil/mciipm.py', 'IpmWriter.write', {'obj': ('dict', 'str', 'pyval')}, None,
+     {'dumps_ext': True, 'extern': {'dumps_ext': ([('d', ('dict', 'str', 'pyval'))], 'bytes', True)}}),
+    ('cardutil/mciipm.py', 'IpmWriter.write_many', {'iterable': ('list', ('dict', 'str', 'pyval'))}, None,
+     {'extern': {'dumps_ext': ([('d', ('dict', 'str', 'pyval'))], 'bytes', True)}}),
     # the WHOLE of _iso8583_to_dict: header split (struct.unpack with a computed format, inside a try), bitmap, MTI check,
     # then the element loop; the element decoder and the bitmap reader are parameters
     ('cardutil/iso8583.py', '_iso8583_to_dict', {'return_values': ('dict', 'str', 'pyval')}, ('dict', 'str', 'pyval'),
@@ -168,6 +175,7 @@ SELF_STATE = {'Block1014': {'fields': [('remaining_chars', 'int')], 'sink': 'fil
               'IpmReader': {'fields': [('record_number', 'int'), ('last_record', 'bytes')], 'source': 'vbs_data',
                             'signals': True},
               'VbsWriter': {'fields': [('_finalised', 'bool')], 'file': 'out_file'},
+              'IpmWriter': {'fields': [('_finalised', 'bool')], 'file': 'out_file'},
               'BitArray': {'fields': [('bytes', 'bytes')]},
               'Iso0PinBlock': {'fields': [('pin', 'str'), ('card_number', 'str')], 'readonly': True},
               'Iso4PinBlock': {'fields': [('pin', 'str'), ('random_value', 'int')], 'readonly': True},
@@ -292,6 +300,13 @@ class Translator:
                             and st.targets[0].id == attr and isinstance(st.value, ast.Constant):
                         return st.value.value
         raise Untranslatable(f'{cls}.{attr} is not a literal class attribute')
+
+    def base_of(self, cls):
+        for node in self.mod.body:
+            if isinstance(node, ast.ClassDef) and node.name == cls and len(node.bases) == 1 \
+                    and isinstance(node.bases[0], ast.Name):
+                return node.bases[0].id
+        raise Untranslatable(f'{cls} has no single named base class')
 
     def imports_from(self, module, name):
         return any(isinstance(n, ast.ImportFrom) and n.module == module and any(a.name == name and a.asname is None
@@ -1095,6 +1110,9 @@ class Translator:
             elif isinstance(st, ast.Expr) and isinstance(st.value, ast.Call) and isinstance(st.value.func, ast.Attribute) \
                     and st.value.func.attr in ('append', 'update') and isinstance(st.value.func.value, ast.Name):
                 out.append(st.value.func.value.id)
+            elif isinstance(st, ast.Expr) and isinstance(st.value, ast.Call) and isinstance(st.value.func, ast.Name) \
+                    and st.value.func.id in ('__self_call__', '__super_call__', '__file_write__'):
+                out.append('*self*')          # the whole self state (expanded by state_of)
             elif isinstance(st, ast.If):
                 for x in st.body + st.orelse:
                     visit(x)
@@ -1106,7 +1124,10 @@ class Translator:
         return out
 
     def state_of(self, body, env):
-        names = [n for n in dict.fromkeys(self.assigned(body)) if n in env]
+        found = []
+        for n in self.assigned(body):
+            found.extend(self.state_names if n == '*self*' else [n])
+        names = [n for n in dict.fromkeys(found) if n in env]
         if not names:
             raise Untranslatable('loop that changes no variable')
         types = [env[n][1] for n in names]
@@ -1170,22 +1191,41 @@ class Translator:
                         + self.stmts(rest, env, ret, loop))
             return self.wrap(go)
         if isinstance(s, ast.Expr) and isinstance(s.value, ast.Call) and isinstance(s.value.func, ast.Name) \
-                and s.value.func.id == '__self_call__':
-            mname = f'{self.cls}_{s.value.args[0].value}'.replace('__', '')
-            fn = self.known.get(f'{self.cls}.{s.value.args[0].value}')
+                and s.value.func.id in ('__self_call__', '__super_call__'):
+            # self.m(args) / super(...).m(args): the translated method (of this class / of its base class) on the current
+            # state; the state it returns goes on
+            owner = self.cls if s.value.func.id == '__self_call__' else self.base_of(self.cls)
+            meth = s.value.args[0].value
+            mname = f'{owner}_{meth}'.replace('__', '')
+            fn = self.known.get(f'{owner}.{meth}') or ALL_KNOWN.get(f'{owner}.{meth}')
             if fn is None or self.self_state is None:
                 raise Untranslatable(f'call of the untranslated method {mname}')
             names = self.state_names
-            args = ' '.join(names)
-            opener = ''
-            for i, n in enumerate(names):
-                path = 'sc' + '.2' * i + ('.1' if i < len(names) - 1 else '')
-                opener += f'let {n} := {path};\n  '
-            if fn.partial:
-                if not self.monadic:
-                    raise NeedMonad()
-                return f'Outcome.bind ({mname} {args}) (fun sc =>\n  {opener}' + self.stmts(rest, env, ret, loop) + ')'
-            return f'let sc := ({mname} {args});\n  {opener}' + self.stmts(rest, env, ret, loop)
+            if [t for _, t in fn.params[:len(names)]] != [env[n][1] for n in names]:
+                raise Untranslatable(f'{mname} works on another state')
+            for en, espec in fn.externs:
+                if self.extern.get(en) != espec:
+                    raise Untranslatable(f'{mname} takes the external function {en}, which this function does not have')
+            extra = fn.params[len(names):]
+            if len(extra) != len(s.value.args) - 1:
+                raise Untranslatable(f'{mname}: argument count')
+
+            def go_call():
+                argcodes = []
+                for (pn, pt), a in zip(extra, s.value.args[1:]):
+                    ac, at = self.expr(a, env)
+                    argcodes.append(self.coerce(ac, at, pt))
+                args = ' '.join([f'ext{en}' for en, _ in fn.externs] + list(names) + [f'({a})' for a in argcodes])
+                opener = ''
+                for i, n in enumerate(names):
+                    path = 'sc' + '.2' * i + ('.1' if i < len(names) - 1 else '')
+                    opener += f'let {n} := {path};\n  '
+                if fn.partial:
+                    if not self.monadic:
+                        raise NeedMonad()
+                    return f'Outcome.bind ({mname} {args}) (fun sc =>\n  {opener}' + self.stmts(rest, env, ret, loop) + ')'
+                return f'let sc := ({mname} {args});\n  {opener}' + self.stmts(rest, env, ret, loop)
+            return self.wrap(go_call)
         if isinstance(s, ast.AugAssign) and isinstance(s.target, ast.Name):
             new = ast.Assign(targets=[ast.Name(s.target.id)], value=ast.BinOp(ast.Name(s.target.id), s.op, s.value))
             return self.stmts([new] + rest, env, ret, loop)
@@ -1681,9 +1721,13 @@ class SelfRewriter(ast.NodeTransformer):
             if c.func.attr == 'seek':
                 return ast.Assign(targets=[ast.Name(id='self_fpos', ctx=ast.Store())], value=arg)
         if isinstance(c, ast.Call) and isinstance(c.func, ast.Attribute) and isinstance(c.func.value, ast.Name) \
-                and c.func.value.id == 'self' and not c.args and not c.keywords:
+                and c.func.value.id == 'self' and not c.keywords:
             return ast.Expr(value=ast.Call(func=ast.Name(id='__self_call__', ctx=ast.Load()),
-                                           args=[ast.Constant(c.func.attr)], keywords=[]))
+                                           args=[ast.Constant(c.func.attr)] + [self.visit(a) for a in c.args], keywords=[]))
+        if isinstance(c, ast.Call) and isinstance(c.func, ast.Attribute) and isinstance(c.func.value, ast.Call) \
+                and isinstance(c.func.value.func, ast.Name) and c.func.value.func.id == 'super' and not c.keywords:
+            return ast.Expr(value=ast.Call(func=ast.Name(id='__super_call__', ctx=ast.Load()),
+                                           args=[ast.Constant(c.func.attr)] + [self.visit(a) for a in c.args], keywords=[]))
         if 'sink' not in self.spec:
             return self.generic_visit(node)
         if isinstance(c, ast.Call) and isinstance(c.func, ast.Attribute) and c.func.attr == 'write' \
@@ -1834,6 +1878,17 @@ def translate_function(mod_ast, fdef, ptypes, ret, known, cls=None, opts=None):
                                                       args=[self.visit(node.args[0])], keywords=[]), node)
                 return self.generic_visit(node)
         body = [ast.fix_missing_locations(LoadsRw().visit(st)) for st in __import__('copy').deepcopy(list(body))]
+    if opts.get('dumps_ext'):
+        class DumpsRw(ast.NodeTransformer):
+            def visit_Call(self, node):
+                f = node.func
+                if isinstance(f, ast.Attribute) and f.attr == 'dumps' and isinstance(f.value, ast.Name) \
+                        and f.value.id == 'iso8583' and len(node.args) == 1:
+                    # the message encoder with the writer's own encoding and configuration: ONE external function of the message
+                    return ast.copy_location(ast.Call(func=ast.Name(id='dumps_ext', ctx=ast.Load()),
+                                                      args=[self.visit(node.args[0])], keywords=[]), node)
+                return self.generic_visit(node)
+        body = [ast.fix_missing_locations(DumpsRw().visit(st)) for st in __import__('copy').deepcopy(list(body))]
     if opts.get('cipher'):
         body, used = cipher_idiom(list(body))
         if not used:
